@@ -237,6 +237,7 @@ func init() {
 		plain := []getter{{"krps", "Rps10s"}, {"krps", "Rps30s"}, {"krps", "Rps300s"}, {"krps", "Average"}}
 		guardAll := true
 		mul, div := "", ""
+		uniform := true
 		plainAll := true
 		for _, g := range append(append([]getter{}, scaled...), plain...) {
 			fd := p.funcDecl(g.recv, g.name)
@@ -275,7 +276,7 @@ func init() {
 				if mul == "" {
 					mul, div = mv, dv
 				} else if mul != mv || div != dv {
-					return fmt.Errorf("(*kbps) getters scale differently (%s/%s vs %s/%s)", mul, div, mv, dv)
+					uniform = false
 				}
 			} else {
 				if _, isCall := ret.Results[0].(*ast.CallExpr); !isCall {
@@ -284,7 +285,7 @@ func init() {
 			}
 		}
 		fmt.Fprintf(w, "/-- Every public rate getter of kbps/krps starts with `if !v.imp.started { panic(…) }`. -/\ndef startedGuardAll : Bool := %v\n", guardAll)
-		fmt.Fprintf(w, "/-- kbps getters return `imp.X() * kbpsMul / kbpsDiv`. -/\ndef kbpsMul : Nat := %s\ndef kbpsDiv : Nat := %s\n", mul, div)
+		fmt.Fprintf(w, "/-- kbps getters return `imp.X() * kbpsMul / kbpsDiv` (factors of the first getter; `kbpsUniform`: all four agree). -/\ndef kbpsMul : Nat := %s\ndef kbpsDiv : Nat := %s\ndef kbpsUniform : Bool := %v\n", mul, div, uniform)
 		fmt.Fprintf(w, "/-- krps getters return `imp.X()` unscaled. -/\ndef krpsPlain : Bool := %v\n", plainAll)
 		return nil
 	}
